@@ -531,8 +531,13 @@ def gen_sensor_case(r, kind=None, n=40, fault_rate=0.2):
         now += 200_000_000 * (1 if not r.chance(0.12) else r.pick([2, 3, 11, 60, r.range(2, 5000)]))
         if kind == "cmd":
             if r.chance(fault_rate):
-                out, pv = r.pick(CMD_OUTPUTS[9:])
-                code = r.pick([0, 0, 0, 1, 3])
+                if r.chance(0.3):
+                    # the command fails AFTER printing something that reads like a number (`echo 0; exit 1`)
+                    out, pv = r.pick(CMD_OUTPUTS[:9])
+                    code = r.pick([1, 3])
+                else:
+                    out, pv = r.pick(CMD_OUTPUTS[9:])
+                    code = r.pick([0, 0, 0, 1, 3])
             else:
                 out, pv = r.pick(CMD_OUTPUTS[:9])
                 code = 0
@@ -544,7 +549,9 @@ def gen_sensor_case(r, kind=None, n=40, fault_rate=0.2):
                 ops.append("sn.poll read=" + r.pick(["perm", "other", "garbage", "empty", "blank"]) + f" now={now}")
             else:
                 v = r.pick([base + r.range(-3000, 3000), base, r.range(-50000, 150000), r.range(-2**62, 2**62), 0])
-                ops.append(f"sn.poll read=ok:{v} now={now}")
+                # now and then the read hangs for longer than any time-out and completes late (seed C08h: the late result
+                # was handed to the NEXT poll)
+                ops.append(f"sn.poll read=ok:{v} now={now}" + (" slow=1" if r.chance(0.04) else ""))
     return ops
 
 
